@@ -89,6 +89,10 @@ def monitor_c02(sc, obs):
     lost = []
     census_ok = True
     prev = None
+    bp = obs[-1].get('budget_probe') if obs else None
+    if bp and bp['max'] is not None and (bp['produced'] > bp['max'] or bp['produced'] > max(bp['budget'] + bp['cut'], bp['k'])):
+        _bad(v, 'C02/over-budget-after-cut', 'a source with a budget of %d whose budget is adjusted by %d from the receive callback of the device taking its part #%d '
+                                             'has supplied %d parts; its budget then allows %d' % (bp['budget'], bp['cut'], bp['k'], bp['produced'], bp['max']))
     for i, o in enumerate(obs):
         devs = o['devices']
         for r in o['data']:
